@@ -1,7 +1,7 @@
 // C19 harness. Sub-commands:
 //   corr   -seed S -n N   op sequences + the implementation state they produce (compared with the Coq model)
 //   search -seed S -n N   evaluates the property itself on the implementation
-//   one    <ops>          (debug) prints the state for one ops string is not supported; use corr
+//   replay <ops>          re-evaluates the property on one history (the witness string of a FAIL line)
 package main
 
 import (
@@ -24,6 +24,11 @@ func main() {
 	if len(os.Args) < 2 {
 		fmt.Fprintln(os.Stderr, "usage: c19 corr|search -seed S -n N")
 		os.Exit(2)
+	}
+	if os.Args[1] == "replay" && len(os.Args) == 3 {
+		rc := replay(os.Args[2])
+		out.Flush()
+		os.Exit(rc)
 	}
 	fs := flag.NewFlagSet(os.Args[1], flag.ExitOnError)
 	seed := fs.Uint64("seed", 0, "seed")
